@@ -295,6 +295,11 @@ func c04Run(in string) string {
 	}
 	var sb strings.Builder
 	sb.WriteString(c04Probe())
+	type c04past struct {
+		root common.Hash
+		keys [][]byte
+	}
+	var past []c04past
 	for _, op := range f[1:] {
 		a := strings.Split(op, ":")
 		switch a[0] {
@@ -367,6 +372,23 @@ func c04Run(in string) string {
 				}
 				sb.WriteString(" " + vu.Hex(k) + " " + truth + " " + c04get(ss, root, k))
 			}
+			// the earlier block states of this history must still read back identically
+			sb.WriteString(" HR " + vu.X(uint64(len(past))))
+			for _, pr := range past {
+				sb.WriteString(" " + vu.Hex(pr.root[:]) + c04load(ss, pr.root))
+				sb.WriteString(" HG " + vu.X(uint64(len(pr.keys))))
+				for _, k := range pr.keys {
+					sb.WriteString(" " + vu.Hex(k) + " " + c04get(ss, pr.root, k))
+				}
+			}
+			hk := probes
+			if len(hk) > 6 {
+				hk = hk[:6]
+			}
+			past = append(past, c04past{root: root, keys: hk})
+			if len(past) > 3 {
+				past = past[1:]
+			}
 			t = t.Snapshot()
 		}
 	}
@@ -426,9 +448,17 @@ func c04Gen(r *vu.RNG, n int, emit func(string)) {
 		tiny := r.Chance(1, 3) // tiny values: inlined leaves and inlined branches
 		var ops []string
 		var keys [][]byte
-		ckeys := [][]byte{{0x63}, {0x63, 0x64}}
+		ckeys := [][]byte{{0x63}, {0x63, 0x64}, {0x64}}
 		blocks := 1 + r.Intn(4)
 		withChild := r.Chance(1, 4)
+		if withChild && r.Chance(1, 2) {
+			// several child tries at once (a longer child key sorting before a shorter one)
+			for _, ck := range ckeys {
+				if r.Chance(3, 4) {
+					ops = append(ops, "CP:"+vu.Hex(ck)+":"+vu.Hex(c04key(r))+":"+vu.Hex(c04value(r, tiny)))
+				}
+			}
+		}
 		if r.Chance(1, 6) {
 			// a key with a hashed value, then (same or next block) a key extending it by 16..40 bytes:
 			// the node of the first key becomes a branch whose partial key is a sub-slice of the second
@@ -447,6 +477,20 @@ func c04Gen(r *vu.RNG, n int, emit func(string)) {
 			if r.Chance(1, 2) {
 				ops = append(ops, "S")
 			}
+		}
+		if ver == 1 && r.Chance(1, 8) {
+			// a V1 branch with a hashed value and two children whose value is deleted again: the
+			// MustBeHashed flag stays on the value-less branch (WriteDirty stores partialKey||H(nil))
+			k := c04key(r)
+			k0 := append(append([]byte{}, k...), 0x00)
+			k1 := append(append([]byte{}, k...), 0x10)
+			ops = append(ops, "P:"+vu.Hex(k)+":"+vu.Hex(r.Bytes(33+r.Intn(10))),
+				"P:"+vu.Hex(k0)+":"+vu.Hex(c04value(r, tiny)), "P:"+vu.Hex(k1)+":"+vu.Hex(c04value(r, tiny)))
+			if r.Chance(1, 2) {
+				ops = append(ops, "S")
+			}
+			ops = append(ops, "D:"+vu.Hex(k))
+			keys = append(keys, k, k0, k1)
 		}
 		for b := 0; b < blocks; b++ {
 			nops := 1 + r.Intn(6)
